@@ -301,6 +301,9 @@ def script_of(beh, preamble):
     return lines
 
 
+MAX_ITEMS = 3000
+
+
 def parse_item(txt):
     parts = txt.split()
     if not parts:
@@ -364,7 +367,12 @@ def replay(exe, behs, preamble, name, nproc=None, keep=False):
                     steps = []
                 elif ln.startswith("S ") or ln.startswith("S\n"):
                     body = ln[2:].rstrip("\n")
-                    steps.append([it for it in (parse_item(t) for t in body.split(";")) if it])
+                    # an event that produced hundreds of items (callbacks / frames without end) disagrees with every prediction:
+                    # keep its head only, or a change that makes the code loop exhausts the memory of the orchestrator
+                    parts = body.split(";", MAX_ITEMS + 1)
+                    if len(parts) > MAX_ITEMS:
+                        parts = parts[:MAX_ITEMS] + ["flood"]
+                    steps.append([it for it in (parse_item(t) for t in parts) if it])
                 elif ln.startswith("E "):
                     _, i, status = ln.split()
                     i = int(i)
@@ -462,6 +470,9 @@ def compare(behs, results, observe, ordered=True, nsetup_events=0, safety_only=F
     mism = []
     stats = collections.Counter()
     for bi, (b, (status, obs)) in enumerate(zip(behs, results)):
+        if status == "skipped":         # the harness gave up on this chunk after many hung / crashed behaviours (all reported)
+            stats["skipped"] += 1
+            continue
         stats["behaviours"] += 1
         steps = b.steps
         suspended = safety_only
